@@ -413,12 +413,16 @@ func registerCrypto(e *Engine) {
 		tag := ex.applyHash("sbtag", 128, true, key, nonce, msg)
 		ok := c.Eq(tag, tagRx)
 		if _, ideal := ex.st["ideal_aead"]; ideal {
-			// unforgeability: the box must be one that was sealed on this path
+			// unforgeability (Dolev-Yao): the box opens iff it is, byte for byte, a box that
+			// was sealed on this path under the same key and nonce
 			var alts []*Term
 			for _, s := range ex.sealApps {
-				alts = append(alts, c.Eq(s.tag, tagRx))
+				if !s.box.n.isConst {
+					ex.unsupported("ideal AEAD with a sealed box of symbolic length")
+				}
+				alts = append(alts, c.And(ex.regionEq(s.key, key), ex.regionEq(s.nonce, nonce), ex.regionEq(s.box, box)))
 			}
-			ok = c.And(ok, c.Or(alts...))
+			ok = c.Or(alts...)
 		}
 		if ex.branch(ok) {
 			r, pan := ex.appendOp(out, ex.newByteSlice(pt, mlen, mlen), nil, nil)
